@@ -574,6 +574,178 @@ def rule_parti(w):
               "no check that there are at least as many cells as patches before _num_patches distinct centres are drawn", fn.file, fn.line)
 
 
+# -------------------------------------------------------------------------------------------------
+# neighbour relation vs. halo dimensions
+# -------------------------------------------------------------------------------------------------
+
+def rule_neighbour_dim(w):
+    """the ranks that become comm neighbours are found through entities of a dimension <= the lowest dimension for which halos are built"""
+    ck = w.ck
+    fns = [fn for fn in w.find(r"Geometry::RootMeshNode<.*>::extract_patch$") if [p["n"] for p in fn.params] == ["comm_ranks", "elems_at_rank", "rank"]]
+    if not fns:
+        ck.incomplete("E2.neighbour-dim", "RootMeshNode::extract_patch(comm_ranks, elems_at_rank, rank) not instantiated")
+    for fn in fns:
+        fk = w.fk(fn)
+        name = short(fn)
+        sd = shape_dim(fn.cls)
+        shape = re.search(r"Shape::((?:Hypercube|Simplex)<\d>)", fn.cls or "").group(1) if sd is not None else None
+        # dimensions for which halos are built for this shape
+        hd = set()
+        for h in w.find(r"Intern::PatchHaloBuild<FEAT::Shape::%s, \d>::build$" % re.escape(shape or "?")):
+            d = halo_build_dims(h.cls)
+            if d and d[1] < d[0]:
+                hd.add(d[1])
+        pushes = [e for e in fk.events if e.kind == "call" and e.name in ("push_back", "emplace_back") and e.obj == "comm_ranks"]
+        if fk.unknown or sd is None or not hd or len(pushes) != 1:
+            ck.incomplete("E2.neighbour-dim", "%s: %s" % (name, "; ".join(x[0] for x in fk.unknown) or "neighbour list / halo builders not recognised"))
+            continue
+        lps = [f.loop for f in pushes[0].frames if f.kind == "loop" and f.loop is not None and f.loop.kind == "adj" and not getattr(f.loop, "container", False)]
+        if len(lps) != 1:
+            ck.incomplete("E2.neighbour-dim", "%s: comm_ranks is not filled from the adjacency list of a rank graph" % name)
+            continue
+        g = lps[0].obj
+        comp = [e for e in fk.events if e.kind == "compose" and e.obj == g]
+        meshes = set()
+        for e in fk.events:
+            if e.kind == "render":
+                for o in e.ops:
+                    m = re.search(r"^(.*)\.get_index_set<(\d+),(\d+)>\(\)$", o or "")
+                    if m:
+                        meshes.add(re.sub(r"\.get_index_set_holder\(\)$", "", m.group(1)))
+        if len(comp) != 1 or len(meshes) != 1:
+            ck.incomplete("E2.neighbour-dim", "%s: the graph %s iterated for comm_ranks is not a composition over entities of one mesh" % (name, g))
+            continue
+        mesh = meshes.pop()
+        link = fk.norm(comp[0].left_img)
+        via = [f for f in range(sd + 1) if fk.norm(Lin.atom("Ent(%s,%d)" % (mesh, f))) == link]
+        if len(via) != 1 or not comp[0].ok:
+            ck.incomplete("E2.neighbour-dim", "%s: the entities through which %s = %s * %s is composed (%r) are not the entities of one dimension of %s" % (
+                name, g, comp[0].ops[0], comp[0].ops[1], link, mesh))
+            continue
+        f = via[0]
+        ok = f <= min(hd)
+        ck.ob("E2.neighbour-dim", "%s/comm_ranks via %s" % (name, g), ok,
+              "neighbour ranks are the ranks adjacent through shared entities of dimension %d (%s = %s * %s); halos are built for the dimensions %s: %s" % (
+                  f, g, comp[0].ops[0], comp[0].ops[1], sorted(hd),
+                  "every pair of patches that can have a non-empty halo shares such an entity" if ok else
+                  "two patches that share only an entity of dimension %d (e.g. touch in one vertex) are not neighbours and get no halo, although PatchHaloBuild would produce one" % min(hd)),
+              fn.file, comp[0].node.get("l"))
+
+
+# -------------------------------------------------------------------------------------------------
+# Parti2Lvl: refinement level vs. rank count (finite case analysis by constant folding of the level formula)
+# -------------------------------------------------------------------------------------------------
+
+def _ieval(fk, n, env):
+    """integer value of an arithmetic expression over the variables in env and compile-time constants (unsigned semantics: / is floor)"""
+    n = strip(n)
+    if n is None:
+        return None
+    k = n.get("k")
+    if k == "Int":
+        return int(n["v"])
+    if k == "Bool":
+        return 1 if n.get("v") else 0
+    if k == "Ref":
+        if n.get("d") in env:
+            return env[n["d"]]
+        s = fk.size(n)
+        if s is not None and s.is_const():
+            return s.c
+        return None
+    if k == "Bin":
+        a, b = _ieval(fk, n["lhs"], env), _ieval(fk, n["rhs"], env)
+        if a is None or b is None:
+            return None
+        op = n["op"]
+        if op == "+":
+            return a + b
+        if op == "-":
+            return a - b if a >= b else None     # unsigned wrap: not evaluated
+        if op == "*":
+            return a * b
+        if op == "/":
+            return a // b if b else None
+        if op == "%":
+            return a % b if b else None
+        if op in ("<", "<=", ">", ">=", "==", "!="):
+            return int({"<": a < b, "<=": a <= b, ">": a > b, ">=": a >= b, "==": a == b, "!=": a != b}[op])
+        if op == "&&":
+            return int(bool(a) and bool(b))
+        if op == "||":
+            return int(bool(a) or bool(b))
+        return None
+    if k == "Cond":
+        c = _ieval(fk, n["c"], env)
+        if c is None:
+            return None
+        return _ieval(fk, n["then"] if c else n["else"], env)
+    if k in ("Construct", "TempObj") and len(n.get("a", [])) == 1:
+        return _ieval(fk, n["a"][0], env)
+    return None
+
+
+def rule_parti_level(w):
+    ck = w.ck
+    fns = w.find(r"Geometry::Parti2Lvl<.*>::Parti2Lvl$")
+    if not fns:
+        ck.incomplete("E9.parti-level", "Parti2Lvl constructor not instantiated")
+    for fn in fns:
+        fk = w.fk(fn)
+        name = short(fn)
+        unclear = [x[0] for x in fk.unknown]
+        # the search loop: count *= factor; ++power
+        mul = [e for e in fk.events if e.kind == "scalar" and e.op == "*=" and e.frames and e.frames[0].kind == "loop"]
+        factor = power = None
+        if len(mul) == 1:
+            fv = fk.size(mul[0].val)
+            factor = fv.c if fv is not None and fv.is_const() else None
+            incs = [e for e in fk.events if e.kind == "scalar" and e.op == "++" and frames_key(e.frames) == frames_key(mul[0].frames)]
+            if len(incs) == 1:
+                pv = fk.locals.get(incs[0].var)
+                p0 = fk.size(pv.get("init")) if pv is not None and pv.get("init") is not None else None
+                others = [e for e in fk.events if e.kind == "scalar" and e.var == incs[0].var and e is not incs[0]]
+                if p0 == Lin.const(0) and not others:
+                    power = incs[0].var
+        lvl = [e for e in fk.events if e.kind == "field" and e.key == "this._ref_lvl" and e.node.get("k") == "Assign" and not e.frames]
+        re_set = [e for e in fk.events if e.kind == "field" and e.key == "this._ref_elems" and e.node.get("k") == "Assign"]
+        ref_fac = None
+        base_ok = False
+        for e in re_set:
+            if e.get("op") == "*=" and e.frames and len(e.frames) == 1 and e.frames[0].kind == "loop" and e.frames[0].loop is not None \
+                    and e.frames[0].loop.kind == "range" and e.frames[0].loop.lo == 0 and e.frames[0].loop.hi is not None \
+                    and fk.norm(e.frames[0].loop.hi) == fk.norm(Lin.atom("this._ref_lvl")):
+                rv = fk.size(e.val_expr)
+                ref_fac = rv.c if rv is not None and rv.is_const() else None
+            elif e.get("op") is None and not e.frames:
+                v = fk.size(e.val_expr) if e.get("val_expr") is not None else e.val
+                base_ok = v is not None and fk.norm(v) == fk.norm(fk.fields.get("this._num_elems", Lin.atom("this._num_elems")))
+        if factor is None or power is None or len(lvl) != 1 or ref_fac is None or not base_ok or len(re_set) != 2:
+            unclear.append("constructor is not of the form `count = #elems; while(count < ranks){count *= factor; ++power}; _ref_lvl = f(power); _ref_elems = #elems * ref_fac^_ref_lvl` "
+                           "(factor=%s, power=%s, level assignments=%d, ref_fac=%s)" % (factor, "found" if power else None, len(lvl), ref_fac))
+        if unclear:
+            ck.incomplete("E9.parti-level", "%s: %s" % (name, "; ".join(unclear)))
+            continue
+        bad = None
+        for p in range(0, 13):
+            v = _ieval(fk, lvl[0].val_expr, {power: p})
+            if v is None:
+                unclear.append("level formula %s not evaluable for power = %d" % (render(lvl[0].val_expr), p))
+                break
+            if (ref_fac ** v) % (factor ** p) != 0:
+                bad = (p, v)
+                break
+        if unclear:
+            ck.incomplete("E9.parti-level", "%s: %s" % (name, "; ".join(unclear)))
+            continue
+        ck.ob("E9.parti-level", name + "/ref-level", bad is None,
+              ("on success ranks = #elems * %d^power; for power = %d the level formula %s gives %d, i.e. %d^%d = %d fine elements per coarse element for %d ranks per coarse "
+               "element: _ref_elems / _num_ranks == 0 and build_elems_at_rank() returns empty patches although success() is true" % (
+                   factor, bad[0], render(lvl[0].val_expr), bad[1], ref_fac, bad[1], ref_fac ** bad[1], factor ** bad[0])) if bad else
+              "for power = 0..12: %d^level(power) is a multiple of %d^power with level = %s, so the refined elements divide evenly among the ranks whenever success() is true" % (
+                  ref_fac, factor, render(lvl[0].val_expr)), fn.file, lvl[0].node.get("l"))
+
+
 def run(tier):
     ck = Check("C12", tier)
     ck.rule("E1.member-binding", "the halo builders are wired to the right sets: PatchHaloBuild<Shape,codim> binds the patch part's target set of the face dimension and the "
@@ -590,6 +762,12 @@ def run(tier):
     ck.rule("E2.parti-coverage", "the elements-at-rank graphs of Parti2Lvl / PartiIterative have (ranks, elements, elements) dimensions, the pointer array is defined on [0,ranks], "
             "Parti2Lvl's index array is the identity on [0,elements)", 6)
     ck.rule("E7.success-guard", "Parti2Lvl reports success only under count == num_ranks with count = #elements * factor^k", 1)
+    ck.rule("E2.neighbour-dim", "RootMeshNode::extract_patch: the ranks entered into comm_ranks are those adjacent through shared entities of a dimension <= the lowest "
+            "dimension for which PatchHaloBuild builds halos (vertices): 'who is a neighbour' agrees with 'for which entities halos exist' "
+            "(otherwise patches touching in a single vertex / edge get no halo)", 1)
+    ck.rule("E9.parti-level", "Parti2Lvl: whenever success() is true (ranks = #elems * factor^power) the refined element count #elems * ref_fac^_ref_lvl is a multiple of the "
+            "rank count - decided by folding the level formula for power = 0..12 with the shape's constants (a level rounded down yields empty patches for power not a multiple "
+            "of the dimension)", 1)
     ck.rule("E12.bcast-agree", "PartiIterative::build_elems_at_rank: sending and receiving branch broadcast identical counts into sufficiently long arrays and build graphs of identical dimensions", 1)
     ck.rule("E7.parti-precond", "PartiIterative checks num_patches > 0 and num_elems >= num_patches before drawing distinct centre cells", 2)
     w = World(ck, tier)
@@ -597,6 +775,8 @@ def run(tier):
     rule_kinds(w)
     rule_monotone(w)
     rule_parti(w)
+    rule_neighbour_dim(w)
+    rule_parti_level(w)
     ck.assume("TargetSet: entries are indices of the parent (base) mesh entities, one per part entity; IndexSet(i,j): i < get_num_entities(), value < get_index_bound(); "
               "Graph accessor contracts as in C19")
     ck.assume("documented parameter roles: tsh = target set holder of the patch mesh part (into the base mesh), ish = index set holder of the base mesh, ranks_at_elem = one node per "
